@@ -214,6 +214,8 @@ def model_decode(case, r):
 def equal(case, a, b):
     if not isinstance(a, dict) or "outs" not in a or "outs" not in b:
         return False
+    if len(a["outs"]) != len(b["outs"]) or len(a["outs"]) != len(case["ops"]):
+        return False                      # one answer per operation on both sides
     for x, y in zip(a["outs"], b["outs"]):
         if y == ["skip"]:
             continue
